@@ -298,6 +298,12 @@ struct sig_machine
   std::array<int, n_conns> unregistered{};
   bool assigned_over_two{false}, dropped_after{false}, called_after{false};
   std::vector<int> detached;
+  // observation from INSIDE an unregister callback (the documented idiom checks sig.empty() there):
+  // the dying connection must no longer be a member of its signal
+  sig_int *observe_sig{nullptr};
+  bool obs_done{false}, obs_empty{false};
+  std::size_t obs_count{0};
+  std::vector<int> obs_calls;
 
   static sig_int *make_int()
   {
@@ -325,7 +331,18 @@ struct sig_machine
       {
         conns[k] = fcppt::signal::optional_auto_connection{sigs[s]->connect(
             typename sig_int::function{[this, ki](int a) { calls.push_back(ki); return a * 7 + ki; }},
-            fcppt::signal::unregister::function{[this, k] { ++unregistered[k]; }})};
+            fcppt::signal::unregister::function{[this, k] {
+              ++unregistered[k];
+              if (observe_sig != nullptr)
+              {
+                obs_done = true;
+                obs_empty = observe_sig->empty();
+                obs_count = static_cast<std::size_t>(std::distance(observe_sig->connections().begin(), observe_sig->connections().end()));
+                calls.clear();
+                (*observe_sig)(typename sig_int::initial_value{0}, 1);
+                obs_calls = calls;
+              }
+            }})};
         vconns[k] = fcppt::signal::optional_auto_connection{vsigs[s]->connect(
             typename sig_void::function{[this, ki] { vcalls.push_back(ki); }}, fcppt::signal::unregister::function{[] {}})};
       }
@@ -342,7 +359,30 @@ struct sig_machine
       if (live_c.empty()) break;
       std::size_t const k = live_c[x % live_c.size()];
       if (std::find(detached.begin(), detached.end(), static_cast<int>(k)) != detached.end()) dropped_after = true;
+      std::vector<int> expect_members;
+      observe_sig = nullptr;
+      obs_done = false;
+      if constexpr (Unregister)
+      {
+        for (std::size_t si = 0; si < n_sigs; ++si)
+          if (sigs[si] && std::find(model[si].begin(), model[si].end(), static_cast<int>(k)) != model[si].end())
+          {
+            observe_sig = sigs[si].get();
+            expect_members = model[si];
+            expect_members.erase(std::remove(expect_members.begin(), expect_members.end(), static_cast<int>(k)), expect_members.end());
+          }
+      }
       conns[k] = fcppt::signal::optional_auto_connection{};
+      if (Unregister && observe_sig != nullptr)
+      {
+        observe_sig = nullptr;
+        if (!obs_done)
+          fail("signal::unregister|disconnect|callback-not-run", "the unregister callback of connection " + std::to_string(k) + " did not run when it died");
+        else if (obs_empty != expect_members.empty() || obs_count != expect_members.size() || obs_calls != expect_members)
+          fail("signal::unregister|inside-callback|dying-connection-still-a-member",
+               "inside the unregister callback of connection " + std::to_string(k) + " the signal reports empty()=" + (obs_empty ? "true" : "false") + ", " + std::to_string(obs_count) +
+                   " connections and a call invokes " + std::to_string(obs_calls.size()) + " callbacks; expected the " + std::to_string(expect_members.size()) + " other live connections only");
+      }
       vconns[k] = fcppt::signal::optional_auto_connection{};
       remove(static_cast<int>(k));
       if (Unregister && unregistered[k] != 1)
